@@ -9,10 +9,11 @@ CONSTANTS
     Base = 120
     SpanLens <- MCSpanLensQuick
     DBRPs = {"db.rp", "db.rp2", "other.rp"}
-    SourceLists <- MCSourceLists
+    ChildLists <- MCChildListsNeg
     WrapUser = FALSE
     TruncNext = TRUE
     CloneSharesGB = TRUE
+    FluxEndsCollection = FALSE
 INVARIANTS
     TypeOK
     RangeIsExact
